@@ -4,9 +4,12 @@
 harness.cpp instantiates every operation for ~60 (element type, capacity) pairs; as one translation unit that is
 about a minute of compile time.  This wrapper compiles the SAME source once per part (-DC01_PART=k, k < C01_NPARTS),
 at most C01_JOBS (default 4) compilers at a time, and links the objects.  It accepts the g++ command line the engine
-builds:   pcxx.py <flags...> -DC01_NPARTS=8 <src>.cpp -o <exe>
+builds:   pcxx.py <flags...> -DC01_NPARTS=14 <src>.cpp -o <exe>
+A part that fails to compile is replaced by a stub that reports the compiler's first error per case (see below); the full
+diagnostics go to <exe>.compile-errors.txt and to stderr.
 """
 import os
+import re
 import subprocess
 import sys
 import tempfile
@@ -40,22 +43,50 @@ def main(argv):
     jobs = max(1, int(os.environ.get("C01_JOBS", "4")))
     rc = 0
     running = []
-    pending = list(cmds)
+    pending = list(enumerate(cmds))
+    failed = {}
     while pending or running:
         while pending and len(running) < jobs:
-            running.append(subprocess.Popen(pending.pop(0), stdout=subprocess.PIPE, stderr=subprocess.STDOUT))
-        p = running.pop(0)
+            k, c = pending.pop(0)
+            running.append((k, subprocess.Popen(c, stdout=subprocess.PIPE, stderr=subprocess.STDOUT)))
+        k, p = running.pop(0)
         o, _ = p.communicate()
         if p.returncode != 0:
+            failed[k] = o.decode("utf-8", "replace")
+            sys.stderr.write("pcxx.py: HARNESS-COMPILE-FAILURE part %d\n" % k + failed[k][-6000:])
+    # A part that does not compile against the library under test (a changed return type, a member that no longer accepts
+    # the harness's call) must not look like "no input found": the part is replaced by a stub (harness.cpp, C01_STUB) whose
+    # flavours answer `harness-does-not-compile part<k>: <first compiler error>` for every case, so that the run reports a
+    # concrete input together with the fact that it is the BUILD that broke, and all other flavours still run.  Part 0
+    # (main, parser, reference leg) has no stand-in: without it there is no executable.
+    errlog = out + ".compile-errors.txt"
+    if os.path.exists(errlog):
+        os.unlink(errlog)
+    if failed:
+        with open(errlog, "w") as f:
+            for k in sorted(failed):
+                f.write("==== part %d\n%s\n" % (k, failed[k]))
+    for k in sorted(failed):
+        if k == 0 or nparts == 1:
+            rc = 1
+            continue
+        first = next((l for l in failed[k].splitlines() if "error" in l), "compiler error")
+        first = re.sub(r"^.*?/include/", "", first.strip())
+        msg = "harness-does-not-compile part%d: %s" % (k, re.sub(r"[^A-Za-z0-9_.:<>,()&*=+/' -]", "_", first)[:240])
+        with open(os.path.join(tmp, "c01_stub_msg.h"), "w") as f:
+            f.write('#define C01_STUB_MSG "%s"\n' % msg.replace("'", "`"))
+        stub = [cxx] + flags + ["-I" + tmp, "-DC01_STUB=%d" % k, "-c", src, "-o", objs[k]]
+        p = subprocess.run(stub, stdout=subprocess.PIPE, stderr=subprocess.STDOUT)
+        if p.returncode != 0:
             rc = p.returncode
-            sys.stderr.write(o.decode("utf-8", "replace")[-6000:])
+            sys.stderr.write(p.stdout.decode("utf-8", "replace")[-3000:])
     if rc == 0:
         link = [cxx] + [f for f in flags if not f.startswith("-D") and not f.startswith("-I")] + objs + ["-o", out]
         p = subprocess.run(link, stdout=subprocess.PIPE, stderr=subprocess.STDOUT)
         rc = p.returncode
         if rc != 0:
             sys.stderr.write(p.stdout.decode("utf-8", "replace")[-6000:])
-    for f in objs:
+    for f in objs + [os.path.join(tmp, "c01_stub_msg.h")]:
         if os.path.exists(f):
             os.unlink(f)
     os.rmdir(tmp)
